@@ -187,9 +187,25 @@ def task_namebinding_init():
                             bad.append('%s:%d' % (path[len(source.SRC) + 1:], n.lineno))
     obs.append({'name': 'C04/frame/rename-permission-is-never-re-enabled', 'status': 'proved' if not bad else 'refuted', 'detail': repr(bad), 'model': {},
                 'time_s': 0, 'backend': 'eval', 'path': None, 'kind': 'frame', 'goal': None})
-    r1['obligations'] += r2['obligations'] + obs
-    r1['functions'] += r2['functions']
-    r1['notes'] += r2['notes']
+    # BuiltinBinding.__init__: `super` is pinned (renaming it removes the implicit __class__ cell of zero-argument super())
+    def run3(ctx):
+        policy = RenPolicy()
+        interp = Interp(ctx, policy=policy)
+        nm = z3.String('builtin_name')
+        module = ctx.new_node({'Module'}, name='module')
+        o = interp.instantiate(bmod.BuiltinBinding, [nm, module], {})
+        d = ctx.data(o)
+        allow = d.fields['_allow_rename']
+        az = allow if z3.is_expr(allow) else z3.BoolVal(bool(allow))
+        ctx.check('C03/BuiltinBinding.__init__/super-is-never-aliased', z3.Implies(nm == z3.StringVal('super'), z3.Not(az)), kind='post',
+                  detail='A=super; A() is not the zero-argument form: the compiler only creates the __class__ cell for the name super')
+        ctx.check('C04/BuiltinBinding.__init__/keeps-name-and-module', (d.fields['_name'] is nm or d.fields['_name'].eq(nm)) and d.fields.get('namespace') == module, kind='post')
+    ex3 = Explorer()
+    ex3.explore(run3)
+    r3 = _finish(ex3, 'C03/BuiltinBinding.__init__', [source.describe(RB + ':BuiltinBinding.__init__')])
+    r1['obligations'] += r2['obligations'] + r3['obligations'] + obs
+    r1['functions'] += r2['functions'] + r3['functions']
+    r1['notes'] += r2['notes'] + r3['notes']
     return r1
 
 
@@ -1035,13 +1051,22 @@ def task_reservation_scope():
     """
     rmod = source.import_module(RN)
     bmod = source.import_module(RB)
-    name = 'C03/reservation_scope'
+    hmod = source.import_module('python_minifier.rename.rename_literals')
+    KNOWN_FIELDS = {'_name', '_allow_rename', '_reserved', '_references', '_value_node', '_local_namespace'}
 
-    def run(ctx):
+    def run(ctx, kind='name', name='C03/reservation_scope'):
         outer = RenPolicy()
         interp = Interp(ctx, policy=outer)
         N = ctx.new_node(NAMESPACE_TAGS, name='binding_namespace')
-        b = ctx.new_obj('inst', bmod.NameBinding, name='binding')
+        if kind == 'name':
+            b = ctx.new_obj('inst', bmod.NameBinding, name='binding')
+        else:
+            # a hoisted literal: built by its real constructor; every field the contract does not know about holds an arbitrary value (it is
+            # whatever rename_literals left there), so a shortcut through cached state is not covered by this contract
+            b = interp.instantiate(hmod.HoistedBinding, [ctx.new_node({'Constant'}, name='literal')], {})
+            for fname in list(ctx.data(b).fields):
+                if fname not in KNOWN_FIELDS:
+                    ctx.data(b).fields[fname] = Opaque('state_left_by_rename_literals_in_' + fname, sort=None)
         refs = ctx.new_obj('list', name='references')
         rd = ctx.data(refs)
         rd.items = {}
@@ -1049,7 +1074,10 @@ def task_reservation_scope():
         ctx.assume(rd.symlen >= 0)
         from pyvc.interp import _keyname
         rd.elem_factory = lambda key: ctx.new_node(set(tag_universe()['names']), name='reference_%s' % _keyname(key))
-        ctx.data(b).fields.update({'_name': z3.String('binding_name'), '_allow_rename': z3.Bool('allow'), '_reserved': None, '_references': refs})
+        if kind == 'name':
+            ctx.data(b).fields.update({'_name': z3.String('binding_name'), '_allow_rename': z3.Bool('allow'), '_reserved': None, '_references': refs})
+        else:
+            ctx.data(b).fields['_references'] = refs
         state = {'iter': [], 'sets': []}
 
         class PP(RenPolicy):
@@ -1160,9 +1188,16 @@ def task_reservation_scope():
         for k in range(len(its) - 1):
             if its[k][0] == 2 and its[k + 1][0] == 3:
                 ctx.check(name + '/arbitrary-iteration-continues-with-the-namespace-above', its[k + 1][1] == ctx.data(its[k][1]).fields.get('namespace'), kind='inv.step')
+    name = 'C03/reservation_scope'
     ex = Explorer(max_paths=400)
     ex.explore(run)
     r1 = _finish(ex, name, [source.describe(RN + ':reservation_scope')])
+    exh = Explorer(max_paths=400)
+    exh.explore(lambda ctx: run(ctx, 'hoisted', 'C06/reservation_scope[HoistedBinding]'))
+    rh = _finish(exh, 'C06/reservation_scope[HoistedBinding]', [source.describe('python_minifier.rename.rename_literals:HoistedBinding.__init__')])
+    r1['obligations'] += rh['obligations']
+    r1['functions'] += rh['functions']
+    r1['notes'] += rh['notes']
 
     # reserve_name(name, scope): every namespace of the scope gets the name
     def run2(ctx):
